@@ -2,6 +2,7 @@ package props
 
 import (
 	"bytes"
+	"encoding/base64"
 	"errors"
 	"io"
 	"os"
@@ -126,7 +127,7 @@ var corpus = [][]string{
 	},
 	3: { // json
 		"{\"a\":[1,2.5e3,true,null,{\"b\":\"c\\n\"}]}", "[ ]", "{\"x\": {\"y\": [[], {}]}, \"z\": -0.1}", "\"str\"", "[1,,2]", "{\"a\":1,}", "{\"k\":\"\\u00e9\",\"l\":[false]}",
-		"{\n  \"name\": \"é\",\n  \"list\": [\n    1e-7,\n    -0,\n    \"\\\"q\\\"\"\n  ]\n}\n", "[[[[[[1]]]]]]", "{\"a\":{\"b\":{\"c\":{}}}} x", "[\"\\ud83d\\ude00\", \"tab\\t\"]", "tru", "{\"a\" 1}", "123.5E+10",
+		"{\n  \"name\": \"é\",\n  \"list\": [\n    1e-7,\n    -0,\n    \"\\\"q\\\"\"\n  ]\n}\n", "[[[[[[1]]]]]]", "[[[[[[[[[[1,[2]]]]]]]]]]]", "{\"a\":{\"b\":{\"c\":{\"d\":{\"e\":{\"f\":{\"g\":{\"h\":{\"i\":{\"j\":[1,{\"k\":null}]}}}}}}}}}}", "[{\"a\":[{\"b\":[{\"c\":[{\"d\":[{\"e\":[{\"f\":[true]}]}]}]}]}]}]", "{\"a\":{\"b\":{\"c\":{}}}} x", "[\"\\ud83d\\ude00\", \"tab\\t\"]", "tru", "{\"a\" 1}", "123.5E+10",
 	},
 	4: { // js
 		"var a = 1, b = /re/g.test(x) ? a/2 : `t${a}l`;", "function f(a,b=1,...c){ if(a) return b; else for(let i of c) yield i }", "class A extends B { #p = 1; static m(){ super.m() } get x(){return this.#p} }",
@@ -666,6 +667,20 @@ func runWorkloadIn(in wlInput, scratch []byte, rec *memRec) (out []byte) {
 		call()
 		mt, data, err := parse.DataURI(cp())
 		t.add("datauri", mt, data, err)
+		// every task also takes the rarer branches of this entry point on a value of its own: a
+		// base64 payload and a percent-encoded one made from its data, with parameters
+		call()
+		own := d
+		if len(own) > 24 {
+			own = own[:24]
+		}
+		b64 := make([]byte, base64.StdEncoding.EncodedLen(len(own)))
+		base64.StdEncoding.Encode(b64, own)
+		mt, data, err = parse.DataURI(append([]byte("data:text/x-task;charset=utf-8;base64,"), b64...))
+		t.add("datauri-b64", mt, data, err)
+		call()
+		mt, data, err = parse.DataURI(append([]byte("data:;p=1,"), parse.EncodeURL(append([]byte(nil), own...), parse.DataURIEncodingTable)...))
+		t.add("datauri-pct", mt, data, err)
 		call()
 		m, params := parse.Mediatype(cp())
 		keys := make([]string, 0, len(params))
